@@ -394,7 +394,14 @@ def r3_order(cx):
             and set(guard_texts(ap[0], stop=lp[0])) == set([("root in seen", False)]) and not has_exit(lp[0].body)
     cx.require(ok, lp[0] if lp else sl, "roots: each result's root is appended the first time it is seen, in result order (the set is only a membership test)", construct=short(lp[0], 140) if lp else "?")
     rs = [a for a in walk_body(sl.body) if isinstance(a, ast.Assign) and U(a.targets[0]) == "results"]
-    cx.require(len(rs) == 1 and U(rs[0].value) == "query(_flatten(nodes)) if deep else query(nodes)", rs[0] if rs else sl, "deep search queries the flattened tree, otherwise the given nodes", construct=short(rs[0]) if rs else "?")
+    okd = len(rs) == 1 and U(rs[0].value) == "query(_flatten(nodes)) if deep else query(nodes)"
+    if not okd and len(rs) == 1 and isinstance(rs[0].value, ast.Call) and call_name(rs[0].value) == "query" and len(rs[0].value.args) == 1 and isinstance(rs[0].value.args[0], ast.Name):
+        # if deep: nodes = _flatten(nodes); results = query(nodes)
+        nm = rs[0].value.args[0].id
+        cases = feat.value_cases(sl, nm, rs[0]) if hasattr(feat, "value_cases") else None
+        reb = [a for a in walk_body(sl.body) if isinstance(a, ast.Assign) and U(a.targets[0]) == nm]
+        okd = len(reb) == 1 and U(reb[0].value) == "_flatten(%s)" % nm and set(guard_texts(reb[0])) == set([("deep", True)]) and reb[0].lineno < rs[0].lineno and not guard_texts(rs[0]) and nm in params(sl)
+    cx.require(okd, rs[0] if rs else sl, "deep search queries the flattened tree, otherwise the given nodes", construct=short(rs[0]) if rs else "?")
 
 
 def r4_levels(cx):
@@ -428,7 +435,19 @@ def _r4_recursive(cx, f, sh):
         if isinstance(gexpr, ast.Name):
             gd = [v for t, v, a in _pairs(f) if t == gexpr.id]
             gexpr = gd[0] if len(gd) == 1 else gexpr
-        ok = U(gexpr) == "list(chain.from_iterable((n.children for n in %s)))" % rname and set(guard_texts(rec[0])) == set([(rest, True), (rname, True)]) and resdef.lineno < rec[0].lineno
+        def _children_of(e, src):
+            # all children of the nodes of src, in order:  list(chain.from_iterable(n.children for n in src))  or  [c for n in src for c in n.children]
+            if U(e).replace(" ", "") == ("list(chain.from_iterable((n.children for n in %s)))" % src).replace(" ", ""):
+                return True
+            if isinstance(e, ast.Call) and call_name(e) == "list" and len(e.args) == 1 and isinstance(e.args[0], ast.Call) and call_name(e.args[0]) in ("chain.from_iterable", "itertools.chain.from_iterable") \
+                    and isinstance(e.args[0].args[0], ast.GeneratorExp):
+                g = e.args[0].args[0]
+                return len(g.generators) == 1 and not g.generators[0].ifs and U(g.generators[0].iter) == src and U(g.elt) == "%s.children" % U(g.generators[0].target)
+            if isinstance(e, ast.ListComp) and len(e.generators) == 2 and not e.generators[0].ifs and not e.generators[1].ifs:
+                g0, g1 = e.generators
+                return U(g0.iter) == src and U(g1.iter) == "%s.children" % U(g0.target) and U(e.elt) == U(g1.target)
+            return False
+        ok = _children_of(gexpr, rname) and set(guard_texts(rec[0])) == set([(rest, True), (rname, True)]) and resdef.lineno < rec[0].lineno
     cx.require(ok, rec[0] if rec else f, "the next query runs on the children of this level's matches (only while queries and matches remain)", construct="gc = children of res; return match(qs, gc)")
     last = [r for r in walk_body(f.body) if isinstance(r, ast.Return) and r not in rec]
     cx.require(bool(last) and all(U(r.value) == rname for r in last), last[-1] if last else f, "the last level's matches are the result", construct="return res")
